@@ -170,7 +170,7 @@ def run(check: core.Check) -> None:
             job(f"{which}:emit", mod + "Emit", f"{mod}.emit4.cfg", workers=6)
         for suffix, _inv in SENSITIVITY[which]:
             job(f"{which}:sens:{suffix}", mod, f"{mod}.{suffix}.cfg", workers=2)
-        num = 3000 if quick else 40000
+        num = 3000 if quick else 30000
         job(f"{which}:sim", mod + "Emit", f"{mod}.sim.cfg", workers=2, simulate=f"num={num}", depth=40,
             seed=check.seed + (11 if which == "percent" else 12))
     if not quick:
@@ -179,6 +179,8 @@ def run(check: core.Check) -> None:
         job("percent:keys", "PercentFormatEmit", "PercentFormat.keys.cfg", workers=6)
     else:
         job("format:nest", "StrFormatEmit", "StrFormat.nest3.cfg", workers=4)
+
+    job("format:deep", "StrFormatEmit", "StrFormat.deep.cfg", workers=4)
 
     def run_job(name: str) -> core.TLCResult:
         j = jobs[name]
@@ -209,7 +211,7 @@ def run(check: core.Check) -> None:
     # 3. binding self-test (corrupted observations must be flagged by TLC)
     selftest_binding(check)
     # 4. S->C replay of TLC's cases through the real visitor and real CPython, adjudicated by TLC
-    limit = 12000 if quick else 150000
+    limit = 12000 if quick else 100000
     exhaustive = True
     model_cases = {}
     for which in MODULE:
@@ -226,9 +228,15 @@ def run(check: core.Check) -> None:
     nest = core.emitted_json(results["format:nest"])
     results["format:nest"].stdout = ""
     model_cases["format-nested-specs"] = len(nest)
-    nest, ex_all = _sample(rnd, nest, 6000 if quick else 60000)
+    nest, ex_all = _sample(rnd, nest, 5000 if quick else 40000)
     exhaustive = exhaustive and ex_all
     judge(check, "format", nest, "tlc-exhaustive:" + jobs["format:nest"]["cfg"])
+    deep = core.emitted_json(results["format:deep"])
+    results["format:deep"].stdout = ""
+    model_cases["format-deep-nesting"] = len(deep)
+    deep, ex_all = _sample(rnd, deep, 5000 if quick else 40000)
+    exhaustive = exhaustive and ex_all
+    judge(check, "format", deep, "tlc-exhaustive:" + jobs["format:deep"]["cfg"])
     if not quick:
         keys = core.emitted_json(results["percent:keys"])
         results["percent:keys"].stdout = ""
@@ -242,7 +250,7 @@ def run(check: core.Check) -> None:
         check.cov.setdefault("simulated_cases", {})[which] = len(sim)
         if len(sim) < 200:
             raise core.MachineryError(f"{which}: simulation produced only {len(sim)} distinct cases")
-        sim, _ = _sample(rnd, sim, 4000 if quick else 40000)
+        sim, _ = _sample(rnd, sim, 4000 if quick else 30000)
         judge(check, which, sim, "tlc-simulate")
     check.cov["exhaustive"] = exhaustive
     check.cov["model_cases"] = model_cases
